@@ -103,6 +103,13 @@ func dereferenceJSONPointer(s *Schema, sptr string) (_ *Schema, err error) {
 			if len(seg) > 1 && seg[0] == '0' {
 				return nil, fmt.Errorf("segment %q has leading zeroes", seg)
 			}
+			// An array index is a sequence of digits (RFC 6901, section 4);
+			// strconv.Atoi would also accept a sign.
+			for i := 0; i < len(seg); i++ {
+				if seg[i] < '0' || seg[i] > '9' {
+					return nil, fmt.Errorf("invalid int: %q", seg)
+				}
+			}
 			n, err := strconv.Atoi(seg)
 			if err != nil {
 				return nil, fmt.Errorf("invalid int: %q", seg)
